@@ -3,13 +3,15 @@
 Each integrity check must exist, compare the right terms, have the right polarity, react by raising and dominate the
 return of the protected value.  Everything is decided on interpreter paths (values, recorded decisions, ordered events);
 no rule looks at statement shapes, local names or source text.
-  C04.1 MDC compare in IntegrityProtectedSKEDataV1.decrypt          C04.2 prefix repetition check
+  C04.1 MDC compare in IntegrityProtectedSKEDataV1.decrypt          C04.2 prefix repetition check (SEIPD and the legacy SKEData)
   C04.3 PKESK checksum in PKESessionKeyV3.decrypt_sk                C04.4 secret-key SHA-1 (254) / checksum (255) guards
   C04.5 PGPMessage.decrypt: a path returns only the object that parsed container.decrypt(key, alg) with the (alg, key) a
         passphrase session-key packet of this message gave for the caller's passphrase; every other path raises
   C04.6 PGPKey.decrypt: truth table over (my key id among the recipients, a subkey id among the recipients): own packet /
         delegation to that subkey / raise; the own packet is selected by type, algorithm and key id
   C04.7 ECDH: the unwrapped value is returned only through PKCS#5 unpadding (update + finalize of one unpadder)
+  C04.9 wrong passphrase never decrypts: the passphrase reaches String2Key.derive_key unchanged through every layer and is turned
+        into hash input injectively (the shared derive_key shape rule of C12; no lossy encoding, no normalisation)
   C04.8 PGPMessage.__or__: the data slot is filled at most once - a second data packet (literal / encrypted data / text) raises,
         so a packet spliced in front of (or behind) the encrypted data can never become, or silently replace, the plaintext
 """
@@ -29,7 +31,7 @@ noinline = lambda f: f.name not in VOCAB_FUNCS  # noqa: E731   (only helpers an 
 
 def run(rep, prog, tier):
     rep.rule('C04.1', 'MDC: trailing 22 octets compared with d3 14 || SHA-1(everything before the digest); mismatch raises; dominates return', floor=1)
-    rep.rule('C04.2', 'prefix quick check: last two octets of the random block compared with the two that follow; mismatch raises', floor=1)
+    rep.rule('C04.2', 'prefix quick check: last two octets of the random block compared with the two that follow; mismatch raises', floor=2)
     rep.rule('C04.3', 'PKESK: sum(session key) mod 65536 compared with the two-octet checksum; mismatch raises', floor=2)
     rep.rule('C04.4', 'secret key: SHA-1 (usage 254) and 16-bit sum (usage 255) of the decrypted material checked; mismatch raises', floor=2)
     rep.rule('C04.5', 'PGPMessage.decrypt returns only the object that parsed the container decrypted with the (key, cipher) a passphrase '
@@ -37,15 +39,19 @@ def run(rep, prog, tier):
     rep.rule('C04.6', 'PGPKey.decrypt raises unless the message is addressed to it or a subkey; delegates to that subkey; selects its own PKESK', floor=4)
     rep.rule('C04.7', 'ECDH decrypt returns the unwrapped value only through PKCS#5 unpadding (update + finalize)', floor=2)
     rep.rule('C04.8', 'PGPMessage.__or__ fills the data slot only when it is empty; a further data packet of any kind raises', floor=6)
+    rep.rule('C04.9', 'the passphrase is handed down unchanged to String2Key.derive_key and enters the hash as itself / its strict UTF-8 '
+             'encoding (injective: distinct passphrases give distinct hash inputs)', floor=8)
     rep.assume('SHA-1/MDC detects modification; AES key unwrap raises on a corrupted wrap (cryptographic arguments, trusted)')
 
     seipd(rep, prog)
+    sed(rep, prog)
     pkesk(rep, prog)
     keyblob(rep, prog)
     message_decrypt(rep, prog)
     key_decrypt(rep, prog)
     ecdh(rep, prog)
     message_compose(rep, prog)
+    passphrase_path(rep, prog)
 
 
 # ------------------------------------------------------------------------------------------------ shared helpers
@@ -160,6 +166,43 @@ def seipd(rep, prog):
             rep.check(r == sl('PT', (BS, ''), (2, '')), 'C04.1', 'IntegrityProtectedSKEDataV1.decrypt', 'return %s' % r,
                       'the value returned must be the plaintext that was checked, minus the %s+2 prefix octets' % BS, where=fi.where,
                       expected='PT[bs+2:]', found=r)
+
+
+def sed(rep, prog):
+    """The legacy Symmetrically Encrypted Data packet (tag 9, RFC 4880 5.7 / 13.9): no MDC, so the prefix repetition check is the only
+    thing between a wrong key (or an integrity-protected packet re-tagged as legacy) and a returned plaintext."""
+    fi = prog.method('pgpy.packet.packets', 'SKEData', 'decrypt')
+    rep.saw(fn=fi)
+    W = 'SKEData.decrypt'
+    key, alg = fi.params[1], fi.params[2]
+    outs = Interp(prog, Scenario(inline=noinline)).run(fi)
+    rep.analysed['paths'] += len(outs)
+    names = prog.function('pgpy.symenc', '_decrypt').params
+    BS = '(%s.block_size // 8)' % alg
+    BS2 = '(%s + 2)' % BS
+    cs = [(c, positional(c, names)) for c in _calls(outs, lambda c: c[0] == '_decrypt')]
+    pre = [c for c, a in cs if a is not None and a[:3] == [sl('self.ct', ('', BS2)), key, alg] and a[3:] in ([], ['None'])]
+    body = [c for c, a in cs if a is not None and a == [sl('self.ct', (BS2, '')), key, alg, sl('self.ct', (2, BS2))]]
+    ok = len(cs) == 2 and len(pre) == 1 and len(body) == 1
+    rep.check(ok, 'C04.2', W, 'decrypt calls %s' % [call_text(c)[:90] for c, a in cs],
+              'RFC 4880 5.7: the first block+2 octets are decrypted with a zero IV, the rest with the key and ciphertext octets 2..bs+2 '
+              'as IV (resynchronisation)', where=fi.where, expected='_decrypt(ct[:bs+2], key, alg) and _decrypt(ct[bs+2:], key, alg, ct[2:bs+2])',
+              found=[call_text(c) for c, a in cs])
+    if not ok:
+        return
+    PP, BODY = call_text(pre[0]), call_text(body[0])
+
+    def iv_sides(a, b):
+        a2, b2 = a.replace(PP, 'PP'), b.replace(PP, 'PP')
+        return a2 == sl('PP', ('', BS), (-2, '')) and b2 == sl('PP', (BS, ''), ('', 2))
+    guards.check_guard(rep, 'C04.2', W, outs, iv_sides, 'the prefix repetition check (octets bs-2..bs == octets bs..bs+2 of the decrypted prefix)',
+                       fi.where)
+    _no_unchecked_store(rep, 'C04.2', W, outs, BODY, 'the prefix check', fi.where)
+    for s in outs:
+        if s.raised is None:
+            r = render(s.ret)
+            rep.check(r == BODY, 'C04.2', W, 'return %s' % r[:120], 'the value returned must be the resynchronised decryption of the data after '
+                      'the prefix', where=fi.where, expected=BODY, found=r)
 
 
 # ------------------------------------------------------------------------------------------------ C04.3
@@ -676,3 +719,85 @@ def message_compose(rep, prog):
                 any(st[0] == 'self._message' and (want is None or st[1] == want) for st in s.stores)]
         rep.check(bool(good) and len(good) == len([s for s in outs if s.raised is None]), 'C04.8', W, 'first data packet (%s)' % name,
                   'the first data packet fills the slot', where=fi.where, scenario='%s, slot empty' % name)
+
+
+# ------------------------------------------------------------------------------------------------ C04.9
+_ENC_OK = ([], ["'utf-8'"], ["'utf8'"], ["'UTF-8'"], ["'utf-8'", "'strict'"], ["'utf8'", "'strict'"], ["'UTF-8'", "'strict'"])
+_RAW_OK = ('bytes', 'bytearray', 'isinstance', 'len', 'memoryview', 'type', 'str')
+
+
+class _Relabel(object):
+    """Re-labels the rule ids of a shared rule family (the report is otherwise passed through)."""
+    def __init__(self, rep, rid):
+        self.rep, self.rid = rep, rid
+
+    def __getattr__(self, k):
+        return getattr(self.rep, k)
+
+    def check(self, cond, rid, *a, **kw):
+        return self.rep.check(cond, self.rid, *a, **kw)
+
+    def violation(self, rid, *a, **kw):
+        return self.rep.violation(self.rid, *a, **kw)
+
+    def ok(self, rid, *a, **kw):
+        return self.rep.ok(self.rid, *a, **kw)
+
+
+def passphrase_path(rep, prog):
+    from rules import C12
+    # (1) what derive_key hashes: the shared shape rule (salt || passphrase octets, repeated to the count, context preloads)
+    C12.check_derive_key(_Relabel(rep, 'C04.9'), prog, 'C04.9', 'C04.9')
+    # (2) the passphrase enters the hash as itself or as its strict UTF-8 encoding: nothing lossy, nothing normalising
+    fi = prog.method('pgpy.packet.fields', 'String2Key', 'derive_key')
+    pw = fi.params[1]
+    for ptype in ('bytes', 'str'):
+        outs = Interp(prog, Scenario(args={pw: Sym(pw, types={ptype}, nonnull=True)}, inline=noinline)).run(fi)
+        rep.analysed['paths'] += len(outs)
+        bad = []
+        for s in outs:
+            for c in s.calls:
+                args = list(c[1]) + list(c[2].values())
+                if c[0].startswith(pw + '.'):
+                    meth = c[0][len(pw) + 1:]
+                    lay = positional(c, ['encoding', 'errors']) if meth == 'encode' else None
+                    if lay not in _ENC_OK:
+                        bad.append(call_text(c))
+                elif pw in args and c[0] not in _RAW_OK and not c[0].startswith('HASHER') and not c[0].startswith('hashlib.'):
+                    bad.append(call_text(c))
+        bad = sorted(set(bad))
+        rep.check(not bad, 'C04.9', 'String2Key.derive_key', 'passphrase transformed: %s' % bad,
+                  'two different passphrases must never give the same key: the passphrase may only be used as it is (bytes) or through '
+                  'a strict UTF-8 encoding; %s is lossy or normalising' % ', '.join(bad), where=fi.where,
+                  expected="%s / %s.encode('utf-8')" % (pw, pw), found=bad or None, scenario='%s passphrase' % ptype)
+    # (3) every layer above hands the caller's passphrase down as it got it
+    layers = [('pgpy.packet.packets', 'SKESessionKeyV4', 'decrypt_sk', 'derive_key'),
+              ('pgpy.packet.fields', 'PrivKey', 'decrypt_keyblob', 'derive_key'),
+              ('pgpy.packet.packets', 'PrivKeyV4', 'unprotect', 'decrypt_keyblob'),
+              ('pgpy.pgp', 'PGPKey', 'unlock', 'unprotect')]
+    for n in sorted(_subclasses(prog, 'PrivKey')):
+        ci = prog.classes_by_name[n][0]
+        if n != 'PrivKey' and 'decrypt_keyblob' in ci.methods and any(c[0].endswith('decrypt_keyblob') for c in _own_calls(prog, ci.methods['decrypt_keyblob'])):
+            layers.append((ci.module.name, n, 'decrypt_keyblob', 'decrypt_keyblob'))
+    for mod, cn, meth, sink in layers:
+        f = prog.method(mod, cn, meth, inherited=False)
+        rep.saw(fn=f)
+        p = f.params[1]
+        hits = [c for c in _own_calls(prog, f) if c[0].split(':')[-1].split('.')[-1] == sink]
+        if not hits:
+            raise AnalysisError('%s.%s no longer calls %s' % (cn, meth, sink))
+        bad = []
+        for c in hits:
+            a = list(c[1]) + list(c[2].values())
+            if not c[0].startswith('super:') and len(a) == 2 and a[0] == f.params[0]:
+                a = a[1:]                       # K.m(self, passphrase), the explicit spelling of super().m(passphrase)
+            if a != [p]:
+                bad.append(call_text(c))
+        rep.check(not bad, 'C04.9', '%s.%s' % (cn, meth), '%s(%s)' % (sink, bad),
+                  'the passphrase must be handed down unchanged (not stripped, folded, truncated, re-encoded or replaced)', where=f.where,
+                  expected='%s(%s)' % (sink, p), found=bad or None)
+
+
+def _own_calls(prog, f):
+    outs = Interp(prog, Scenario(inline=noinline, join_unknown=False)).run(f)
+    return _calls(outs, lambda c: True)
